@@ -28,7 +28,9 @@ def guard(pre, rest, nested, absolute, tail, ro, lo, so):
         before = dump(mc.__wrapped__)
         fn = getattr(g, m)
         try:
-            if m in ("move", "copy"):
+            if m == "copy" and pos == 2:
+                fn("d", g["h"], name=p)
+            elif m in ("move", "copy"):
                 fn(p, "d2") if pos == 0 else fn("d", p)
             elif m == "__setitem__":
                 fn(p, 1)
